@@ -172,6 +172,30 @@ func checkC08(cfg *core.Config) int {
 					if !col.PrimaryKey || col.Type != "serial" {
 						bad("primary-key", "%s: want `serial PRIMARY KEY`, got %q", where, col.Raw)
 					}
+					// the id may itself reference another table (a one-to-one table sharing the key of its parent)
+					nFK, okTarget := 0, false
+					for _, a := range sc.Alters {
+						if strings.EqualFold(a.Table, tt.SQLName) && a.Kind == "add_foreign_key" && len(a.Columns) == 1 && strings.EqualFold(a.Columns[0], tc.Field) {
+							nFK++
+							if tc.FK != nil && strings.EqualFold(a.RefTable, tc.FK.TargetSQL) && a.OnDelete == tc.FK.OnDelete {
+								okTarget = true
+							}
+						}
+					}
+					wantFK := 0
+					if tc.FK != nil {
+						wantFK = 1
+						for _, d := range tt.Directives {
+							if d.Kind == "foreign-key-references" && strings.Contains(d.Raw, "("+tc.Field+")") {
+								wantFK++
+							}
+						}
+					}
+					if nFK != wantFK {
+						bad("foreign-key-count", "%s: %d FOREIGN KEY constraints on the id column, want %d", where, nFK, wantFK)
+					} else if tc.FK != nil && !okTarget {
+						bad("foreign-key-target", "%s: the FOREIGN KEY of the id column does not reference %s", where, tc.FK.TargetSQL)
+					}
 					continue
 				}
 				if col.PrimaryKey {
